@@ -24,7 +24,8 @@ META["C16"] = {
 
 A_FILES = {"a.f90": ["module kinds", "type tol_t", "real :: abs_tol", "end type tol_t", "end module kinds",
                      # declared with capitals, referenced in lower case from B (names are case-insensitive)
-                     "module Geom", "type Shape", "integer :: n", "contains", "procedure :: Describe => describe_shape", "procedure :: area => area_shape",
+                     "module Geom", "abstract interface", "function area_iface(x)", "real :: x, area_iface", "end function area_iface", "end interface",
+                     "type Shape", "integer :: n", "contains", "procedure :: Describe => describe_shape", "procedure :: area => area_shape",
                      "end type Shape", "contains", "subroutine describe_shape(self)", "class(Shape) :: self", "end subroutine describe_shape",
                      "function area_shape(self)", "class(Shape) :: self", "real :: area_shape", "end function area_shape", "end module Geom",
                      "module shared", "integer :: s", "end module shared",
@@ -55,6 +56,7 @@ LOCAL_SHARED = [("type shared", True), ("type Shared", True), ("type unshared", 
 def _b_files(mk, uk, ls):
     return {"b.f90": [mk, "type tol_t", "real :: rel_tol", "end type tol_t", ls, "integer :: q", "end type", "end module",
                       "module app", uk, "use geom", "use facade, only: root_t", "use facade2", "type(tol_t) :: v", "type(shape) :: w", "type(root_t) :: z", "type(root2_t) :: z2",
+                      "procedure(area_iface), pointer :: pp",
                       # B extends A's type and overrides one of its bindings (spelled in another letter case); the other one is inherited
                       "type, extends(shape) :: square", "integer :: side", "contains", "procedure :: describe => describe_square", "end type square",
                       "contains", "subroutine describe_square(self)", "class(square) :: self", "end subroutine describe_square",
@@ -88,6 +90,7 @@ def _observe(p):
             "type(shape)": choice.apply(_classify, vs[1].proto[0]) if len(vs) > 1 and vs[1].proto else "unresolved",
             "type(root_t)": choice.apply(_classify, vs[2].proto[0]) if len(vs) > 2 and vs[2].proto else "unresolved",
             "type(root2_t)": choice.apply(_classify, vs[3].proto[0]) if len(vs) > 3 and vs[3].proto else "unresolved",
+            "procedure(area_iface)": choice.apply(_classify, vs[4].proto[0]) if len(vs) > 4 and vs[4].proto else "unresolved",
             "find(shared)": "none" if found is None else choice.apply(_classify, found),
             "block data: type(shape)": _bd_proto(p),
             "bindings of square": binds}
@@ -102,7 +105,7 @@ def _bd_proto(p):
 
 def rule(local_kinds, local_shared):
     return {"use kinds": "local" if local_kinds else "external", "use geom": "external",
-            "type(tol_t)": "local" if local_kinds else "external", "type(shape)": "external", "type(root_t)": "external", "type(root2_t)": "external",
+            "type(tol_t)": "local" if local_kinds else "external", "type(shape)": "external", "type(root_t)": "external", "type(root2_t)": "external", "procedure(area_iface)": "external",
             "find(shared)": "local" if local_shared else "external", "block data: type(shape)": "external",
             # B's own `describe` replaces A's `Describe`; `area` is inherited from A
             "bindings of square": [("area", "external"), ("describe", "local")]}
@@ -149,7 +152,7 @@ def local_first(ctx):
             E.reachable("correlated")
             want = choice.apply(rule, mk[1], ls[1])
             h.want = want
-            for k in ("use kinds", "use geom", "type(tol_t)", "type(shape)", "type(root_t)", "type(root2_t)", "find(shared)", "bindings of square", "block data: type(shape)"):
+            for k in ("use kinds", "use geom", "type(tol_t)", "type(shape)", "type(root_t)", "type(root2_t)", "procedure(area_iface)", "find(shared)", "bindings of square", "block data: type(shape)"):
                 E.require(choice.apply(lambda g, w_, k=k: g == w_[k], got[k], want), f"{k}: wrong side (local/external) chosen")
 
         E = sym.Engine(ctx, max_paths=20000, incremental=True)
